@@ -92,7 +92,7 @@ CLAIMED = {
         ref="DESIGN.md §6 C09"),
     "C10": dict(
         technique="Lean 4 theorems over a model of the command-level import (parse, merge, write) + differential correspondence against the built dirk binary + Lean-spec judge on observed exports",
-        text="Theorems C10_never_lowers, C10_protects (every number in the file is covered afterwards), C10_sequence_never_lowers / C10_sequence_protects (stated over ANY list of files run one after the other, accepted or refused: nothing ends lower, every accepted file stays covered to the end), C10_composes (range invariant "
+        text="Theorems C10_never_lowers, C10_protects (every number in the file is covered afterwards), C10_sequence_never_lowers / C10_sequence_protects (stated over ANY list of files run one after the other, accepted or refused: nothing ends lower, every accepted file stays covered to the end), C10_sequence_refuses_prop/_att (end to end: on the store left by the whole list, a proposal at or below a slot, or a vote at or below a target / below a source, that an accepted file states is refused under every fault plan), C10_composes (range invariant "
              "preserved, so any sequence of imports), C10_refuses_after_prop/_att, C10_bad_metadata, C10_parse_error_no_change; "
              "for all prior stores in int64 range, files and flags. Tie: the dirk binary itself is built from /repo and driven "
              "through import/export on real badger directories (prior stores, repeated keys, mixed-age fields, malformed numbers "
